@@ -111,7 +111,7 @@ CLAIMS = {
             'Scenario lunar months tile by construction (real tiling is C03).', 'DESIGN.md §3 C07'),
     'C11': ('per-type sibling checks for 42 cycle types; Euclidean helper table; carry tables for linear units; lunar stepping on a scenario calendar',
             'Each cycle type is wired to its own name table in both constructors, has Euclidean indices, next() is a group action, name lookup is the inverse of get_name (first match) and unknown names are refused; '
-            'year/half-year/season/month/term carries are floor carries wherever accepted (incl. terms around year 0); lunar month/day/hour stepping obeys next(a).next(b)=next(a+b) on a scenario calendar with two leap months. '
+            'year/half-year/season/month/term carries are floor carries wherever accepted (incl. terms around year 0); lunar month/day/hour stepping obeys next(a).next(b)=next(a+b) on a scenario calendar with two leap months; lunar months jump by up to +-705 along the stored table; a sexagenary hour stepped by n seconds is the value of the instant n seconds later (across every Jie); enum and term by-name lookups are inverse to their names. '
             'Duplicate names in PHASE_NAMES are a listed known finding.',
             'Group laws on the real lunar calendar need the real month records (C03).', 'DESIGN.md §3 C11'),
     'C20': ('festival lookups evaluated on literal tables over the whole key space; lunar festivals on scenario calendars; legal-holiday literal grammar + readers over every date',
@@ -122,7 +122,7 @@ CLAIMS = {
             'Inventory of every static (interior mutability, static mut, thread_local, unsafe) against a frozen list with reasons; who-may-touch per mutable static; strategy boxes never written by library code; '
             'the one memo is transparent (injective key over 33k keys incl. all digit-concatenation and affine collision families, value = f(args), writer/reader field agreement, one critical section, never shrinks, refusals store nothing); '
             'for every guard: no panic-capable callee while it is live unless the acquisition tolerates poisoning; no re-entrancy; lock order acyclic (dyn calls expanded to all impls); no clock/env/fs/net/thread/rng callee among all call sites; '
-            'hash-map iteration only where the leap table\'s uniqueness makes order irrelevant; values with RefCell memo cells are only built with empty cells in their constructor, never copied (struct update, clone-then-assign) and each cell has one writer; no non-blocking acquisition without a blocking fall-back.',
+            'hash-map iteration only where the leap table\'s uniqueness makes order irrelevant; values with RefCell memo cells are only built with empty cells in their constructor, never copied (struct update, clone-then-assign), each cell has one writer and is read only by the getter that fills it; no non-blocking acquisition without a blocking fall-back; every blocking acquisition yields its guard through a recognised idiom; the hash-map reader is evaluated for every year under three iteration orders.',
             'Trusted: rustc nightly MIR and callee resolution; std Mutex/RefCell semantics. OS scheduling itself needs no argument once these hold. User-installed providers are outside the statement.',
             'DESIGN.md §3 C10'),
 }
@@ -132,8 +132,8 @@ NOT_APPLICABLE = {}
 
 
 SHARED_DESC = {
-    'month_records': 'lunar month records (stored leap table order/uniqueness/intercalation rhythm, solstice-month anchoring against a uniform-lunation model, transparency of the month memo over a collision-closed key set, memo-cell constructor / foreign-write rules)',
-    'jd_tables': 'civil date <-> day number (additivity lemma + both Julian-day formulas at the ends of all 119,988 months)',
+    'month_records': 'lunar month records (stored leap table order/uniqueness/intercalation rhythm, solstice-month anchoring against a uniform-lunation model, month length = distance to the next new-moon day for 28..31-day gaps, transparency of the month memo over a collision-closed key set, memo-cell constructor / copy / reader / foreign-write rules)',
+    'jd_tables': 'civil date <-> day number (additivity lemma + both Julian-day formulas at the ends of all 119,988 months, the date / instant accessors agreeing with them) and Julian date -> clock (round trip, seconds rounding and the 60 -> minute -> hour -> next-day carries on ~12,900 sampled instants)',
     'solver_structure': 'day-level term / new-moon solvers fall back to the precise solver near civil midnight; full series in the last Newton step',
     'effect_inventory': 'inventory of process-wide mutable state from MIR (no static with interior mutability, thread_local or unsafe beyond the frozen list)',
 }
